@@ -106,8 +106,12 @@ func TestShouldCleanupSemanticChangesAreSeen(t *testing.T) {
 		"pod lookup error treated as gone": func(s string) string {
 			return mustReplace(t, s, "if apierrors.IsNotFound(err) {\n\t\t\t\t\t\treturn true\n\t\t\t\t\t}", "if err != nil {\n\t\t\t\t\t\treturn true\n\t\t\t\t\t}")
 		},
-		"nil State no longer guarded": func(s string) string { return mustReplace(t, s, "c.State != nil && (c.State.Status", "(c.State.Status") },
-		"a third state":               func(s string) string { return mustReplace(t, s, "|| c.State.Status == ContainerDead)", "|| c.State.Status == ContainerDead || c.State.Status == \"paused\")") },
+		"nil State no longer guarded": func(s string) string {
+			return mustReplace(t, s, "c.State != nil && (c.State.Status", "(c.State.Status")
+		},
+		"a third state": func(s string) string {
+			return mustReplace(t, s, "|| c.State.Status == ContainerDead)", "|| c.State.Status == ContainerDead || c.State.Status == \"paused\")")
+		},
 		"running container no longer vetoes": func(s string) string {
 			return mustReplace(t, s, "status.State.Waiting != nil || status.State.Running != nil", "status.State.Waiting != nil")
 		},
@@ -150,5 +154,24 @@ func TestSweepShape(t *testing.T) {
 	fset, fd = parseFn(t, extra, "cleanupGCDirs")
 	if got := analyseSweep(fset, fd); got.removal == nil || reflect.DeepEqual(got.removal.Conds, orig.removal.Conds) {
 		t.Errorf("an extra guard on the removal was not noticed")
+	}
+}
+
+// seeded C17-5: owners of all files are read into a map first, the recorded paths are removed later — the removal
+// leaves the read's loop iteration and the normal form shows it.
+func TestBatchedSweepIsSeen(t *testing.T) {
+	src := realSource(t)
+	fset, fd := parseFn(t, src, "cleanupIP")
+	orig := analyseSweep(fset, fd)
+	if orig.removal == nil || len(orig.removal.Loops) != 2 || len(orig.others) != 0 {
+		t.Fatalf("unexpected reading of cleanupIP: %+v", orig)
+	}
+	batched := mustReplace(t, src, "\t\t\tif gc.shouldCleanup(containerId) {\n\t\t\t\tremoveLeakyIPFile(ipFile, containerId)\n\t\t\t}\n\t\t}\n\t}\n\treturn nil",
+		"\t\t\treserved[containerId] = append(reserved[containerId], ipFile)\n\t\t}\n\t}\n\tfor containerId, ipFiles := range reserved {\n\t\tif !gc.shouldCleanup(containerId) {\n\t\t\tcontinue\n\t\t}\n\t\tfor _, ipFile := range ipFiles {\n\t\t\tremoveLeakyIPFile(ipFile, containerId)\n\t\t}\n\t}\n\treturn nil")
+	batched = mustReplace(t, batched, "\tglog.V(4).Infof(\"cleanup ip...\")\n", "\treserved := make(map[string][]string)\n")
+	fset, fd = parseFn(t, batched, "cleanupIP")
+	got := analyseSweep(fset, fd)
+	if got.removal != nil && got.removal.String() == orig.removal.String() && len(got.others) == 0 {
+		t.Errorf("the batched sweep has the same normal form as the per-file sweep")
 	}
 }
